@@ -379,6 +379,15 @@ class LockCheck(Check):
             'mismatching_scenarios': len(mismatches),
             'exhaustive': False,
         })
+        if stats.get('client_wf_checked'):
+            self.cov['guard_algebra_premise'] = {
+                'what': 'the guard-algebra theorems (c07_client_*, c13_client_*) assume well-formed client programs (WF: typed '
+                        'instructions, existing variables / locks, every guard variable used by one thread); the driver evaluates '
+                        'the executable premise wfB (wfB_sound: wfB = true implies WF) on the model state of every replayed '
+                        'PessimisticLock / OptimisticLock scenario',
+                'scenarios_checked': stats.get('client_wf_checked', 0),
+                'scenarios_meeting_the_premise': stats.get('client_wf_true', 0),
+            }
         some = sorted(scen)[:2]
         self.samples = [scen[s] for s in some]
         self.cov['samples'] = self.samples
